@@ -78,6 +78,7 @@ type e2Machine struct {
 	nreset   int
 	nforeign int
 	ntxfail  int
+	nreopen  int
 	patched  []patchDone // REST patches answered with success (schedule scenarios)
 	// REST patches that were answered with an error in a run with injected faults (their caller retries later)
 	failedPatches []pt.Action
@@ -312,6 +313,11 @@ func (m *e2Machine) Enabled() []pt.Action {
 			// (a subscriber may work on its provisional datatype before its first sync: the API allows it and
 			// the protocol discards that work when the subscription completes)
 			w.reps = []*Replica{d.rep}
+			if m.oracles["entry"] && m.nreopen < 1 {
+				// the same client uses its key a second time (pending or subscribed): with the same type it gets the handle it
+				// already has, with another type it is refused through the error handler
+				as = append(as, pt.Action{Op: "reopen", R: c.idx, T: k, K: "soc", V: "same"}, pt.Action{Op: "reopen", R: c.idx, T: k, K: "create", V: "other"})
+			}
 			if lc := localCalls(w, 0, m.p.Alpha); strings.Contains(m.p.Alpha, "txfail") && len(lc) > 0 && m.ntxfail < 1 {
 				// a transaction that gives up after its first call (rolled back: nothing of it may remain, also not in the numbering)
 				as = append(as, pt.Action{Op: "tx", R: c.idx, T: k + "|", Fail: true, Sub: []pt.Action{lc[0]}})
@@ -546,6 +552,29 @@ func (m *e2Machine) Apply(a pt.Action) (v *pt.Violation) {
 				if i >= old && i > 0 && strings.HasSuffix(op.typ, "_SNAPSHOT") {
 					return viol("C19:rest-patch-pushed-a-snapshot-operation", "PatchDocument(%s) appended a %s operation at log position %d of an existing log (every subscriber resets to it)", a.T, op.typ, i+1)
 				}
+			}
+		}
+	case "reopen":
+		m.nreopen++
+		d := c.dts[a.T]
+		typ := c.typ
+		if a.V == "other" {
+			typ = map[string]string{"counter": "map", "map": "list", "list": "doc", "doc": "counter"}[c.typ]
+		}
+		_, errsBefore, _ := c.h.Events(a.T)
+		nd := m.openDatatype(c, a.T, a.K, typ)
+		_, errsAfter, _ := c.h.Events(a.T)
+		m.last = fmt.Sprintf("reopen %s nil=%v errs=%d", a.V, nd == nil, len(errsAfter)-len(errsBefore))
+		if a.V == "same" {
+			if nd == nil || nd.rep.dt != d.rep.dt {
+				return viol("C13:second-use-of-own-key-gives-another-datatype", "%s: the client already holds %s (state %v) but got %v instead of that handle", a, a.T, d.rep.dt.GetState(), nd)
+			}
+		} else {
+			if nd != nil {
+				return viol("C13:own-key-reused-with-another-type-not-refused", "%s: the client holds %s as %s, opening it as %s returned a datatype", a, a.T, c.typ, typ)
+			}
+			if len(errsAfter) <= len(errsBefore) {
+				return viol("C13:own-key-reused-with-another-type-not-reported", "%s: refused, but the error handler was not called", a)
 			}
 		}
 	case "open":
@@ -913,7 +942,7 @@ func (m *e2Machine) checkNotify(a pt.Action, pubsBefore int, opsBefore map[strin
 
 func (m *e2Machine) Key() (string, bool) {
 	h := sha256.New()
-	fmt.Fprintf(h, "DB\n%s\nF%d\nR%d\nT%d\n", m.sys.DB.Dump(), m.nfault, m.nreader, m.ntxfail)
+	fmt.Fprintf(h, "DB\n%s\nF%d\nR%d\nT%d\nO%d\n", m.sys.DB.Dump(), m.nfault, m.nreader, m.ntxfail, m.nreopen)
 	for i := 0; i < len(m.cls); i++ {
 		for _, hr := range m.held[i] {
 			b, _ := proto.Marshal(hr.pack)
